@@ -43,6 +43,8 @@ if [ "$TIER" = "thorough" ] && [ -z "${REPO:-}" ] && [[ "$PROP" =~ ^C[0-9]+$ ]];
   for f in "$HERE"/mutants/$PROP-*.patch; do [ -f "$f" ] && patches+=("$f"); done
   for d in "$HERE"/seeded/$PROP-*; do
     [ -d "$d" ] || continue
+    # a seed that relied on a defect since repaired in /repo no longer breaks anything on the repaired tree
+    [ -f "$d/neutralised.txt" ] && continue
     if [ -f "$d/patch.ported.diff" ]; then patches+=("$d/patch.ported.diff"); elif [ -f "$d/patch.diff" ]; then patches+=("$d/patch.diff"); fi
   done
   missed=0; ndet=0; nskip=0
